@@ -172,6 +172,9 @@ var dcCrossed = false
 // and as a map value -- so its generated file must import the first
 var dcSuffix = false
 
+// dcEmbedded: structs whose only reference-holding member is an embedded one, used in nested positions
+var dcEmbedded = false
+
 func (g *Gen) genDeepcopyProgram(prefix string, npk int, arrayRefs bool) ([]dcPkg, []string) {
 	d := &dcGen{g: g, classes: map[string]bool{}, arrayRefs: arrayRefs}
 	for p := 0; p < npk; p++ {
@@ -281,6 +284,13 @@ func (g *Gen) genDeepcopyProgram(prefix string, npk int, arrayRefs bool) ([]dcPk
 			}
 			b.WriteString("}\n\n")
 			cur.Types = append(cur.Types, dcType{Name: name, Kind: "struct", Generated: gen})
+		}
+		if dcEmbedded && p == 0 {
+			b.WriteString("// +k8s:deepcopy-gen=true\ntype EBase struct {\n\tLabels map[string]string\n}\n\n// +k8s:deepcopy-gen=true\ntype EItem struct {\n\tEBase\n\tN int\n}\n\n// +k8s:deepcopy-gen=true\ntype EPItem struct {\n\t*EBase\n\tN int\n}\n\n// +k8s:deepcopy-gen=true\ntype EUser struct {\n\tS []EItem\n\tM map[string]EPItem\n\tOne EItem\n\tP *EItem\n}\n\n")
+			for _, n := range []string{"EBase", "EItem", "EPItem", "EUser"} {
+				cur.Types = append(cur.Types, dcType{Name: n, Kind: "struct", Generated: true})
+			}
+			d.classes["references-only-in-embedded-members"] = true
 		}
 		if dcSuffix && p == 0 {
 			b.WriteString("// +k8s:deepcopy-gen=true\ntype SufLeaf struct {\n\tN int\n\tP *int\n}\n\n")
